@@ -239,6 +239,9 @@ pub fn edge_cases() -> Vec<String> {
         "fn g() -> X { } fn f() { let () = g(); }", "fn g() -> fn() { } fn f() { let (a,) = g(); }",
         "fn f(x: X) { let (a, b) = x; }", "fn g() -> X { } fn f() { let [a] = g(); }",
         "mod inner { e!(); } use inner::*; use x;", "mod inner{e(}use inner::*use", "mod inner { e!(); } use inner::*;",
+        // F10 / F11 (semantic leg)
+        "struct W {} impl I of core::ops::Deref<W> { type (fe u } fn f(w: W) -> u8 { w.1 }",
+        "fn f() { write!(f,\"\\u007Bace}\")", "fn{write!(f,\"\\u007Bace}\")", "fn f() { write!(f,\"\\x7Bace}\") }",
     ]
     .into_iter()
     .map(String::from)
